@@ -10,6 +10,9 @@
     else delays → sleep min(delays) (capped by WAITING_KEEPALIVE_INTERVAL) → the touch-dummy PATCH,
     its echo is the next watch event; else nothing: no event is pending, the loop is quiescent.
     A marked object whose own finalizer is removed (and no foreign finalizer holds it) is gone.
+    An object no handler's filters accept ("blind", repo fix 423b86f) and an object in deletion that only
+    somebody else's finalizer holds (cause FREE, repo fix 40d09eb) get no handlers, but the leftover progress
+    records PRESENT on them are purged (`purgeTurn`: one PATCH, its echo finds nothing to purge).
 
   The per-object worker is sequential (`queueing.worker`) and, while nobody else writes, every event
   it receives is the echo of its own last PATCH: so the closed loop of one object is a *function*
@@ -18,9 +21,10 @@
   property quantifies over. Time is integer ticks. Core Lean only.
 
   Deliberately NOT in this model (other properties own them): daemons/timers and their delays (C09/C10:
-  `spawning = false` in the finalizer decision), the consistency wait for the echo (C07: `consistent =
-  true`), the patch transport and its conflicts (C08), foreign finalizer edits (C06; a constant
-  `foreignFins` says whether somebody else's finalizer holds the object).
+  `spawning = false` in the finalizer decision), whether the consistency barrier is up (C07: `consistent =
+  true` in `loopStep`; what a held-back turn does to the loop is `loopStepI`), the patch transport and its
+  conflicts (C08; what a cycle that starts with a carried patch does to the loop is `loopStepC`), foreign
+  finalizer edits (C06; a constant `foreignFins` says whether somebody else's finalizer holds the object).
 -/
 import Kopf.Model.C05_Cause
 import Kopf.Model.C02_Cycle
@@ -112,12 +116,23 @@ def minDelay : List Tick → Option Tick
     in a stored record's or an outcome's `subrefs`; otherwise `writes` can miss a purge-only PATCH) -/
 def ids (env : Env) : List Id := env.owned ++ env.subs
 
+/-- `State.from_storage(body, handlers=owned).purge(body, patch, handlers=owned)`: the progress records of the
+    resource's handlers (and of their sub-handlers, by the records' `subrefs`) that are PRESENT on the object are
+    patched away. What the no-op cause does since d1b2dc4 (C02 `cycle`, reason "noop"); since 423b86f also the
+    blind branch of `process_resource_causes`, since 40d09eb also the cause FREE. -/
+def purged (env : Env) (s : State E) : C02.Store :=
+  C02.purge s.P (C02.fromStorage s.P env.owned) env.owned env.owned
+
+/-- does that purge find anything to patch away? ("nothing to purge -- nothing to patch") -/
+def leftovers (env : Env) (s : State E) : Bool := (ids env).any (fun i => purged env s i != s.P i)
+
 /-- what the finalizer decision block of `process_resource_causes` reads (C06), for this loop:
     no daemons, a consistent view; `chgDelays` = the handling pass left delays -/
 def finIn (env : Env) (s : State E) (chgDelays : Bool) : C06.In :=
   { spawning := false, spawnReq := false, changing := env.prematch, changeReq := env.changeReq,
     isBlocked := s.blocked, isOngoing := s.marked, deletedEvent := false, consistent := true,
-    spawnDelays := false, changeDelays := chgDelays }
+    spawnDelays := false, changeDelays := chgDelays,
+    deadline := false, paused := false, carried := false }   -- read at the early exit only (`loopStepI`, `loopStepC`)
 
 /-- the decision of this turn -/
 def decisionOf (env : Env) (s : State E) : C06.Decision :=
@@ -169,6 +184,28 @@ def releaseTurn (env : Env) (s : State E) : State E :=
       (s.writes + (if changedOf env s then 2 else cp env + 1)) with
     blocked := false, gone := !env.foreignFins }
 
+/-- A turn without handlers on an object the framework is blind to (no changing handler's filters accept it; repo fix
+    423b86f) or on an object in deletion that the own finalizer does not hold and somebody else's does (cause FREE; repo
+    fix 40d09eb): the leftover records present on the object are purged — one PATCH that changes the object, its echo
+    is the next event and finds nothing to purge; with nothing to purge nothing is written (but the constant part of
+    the patch) and no event follows. The last-handled state is left alone. -/
+def purgeTurn (env : Env) (s : State E) : State E :=
+  if leftovers env s then
+    { s with P := purged env s, now := s.now + env.lat, pending := true, writes := s.writes + 1 }
+  else { s with pending := false, writes := s.writes + cp env }
+
+/-- The turn that removes the finalizer nobody needs ("Removing the finalizer, as there are no handlers requiring
+    it"): no handlers this turn. On a blind object the purge of leftovers (423b86f) precedes the finalizer block of
+    `process_resource_causes` and goes out in the same `apply`: merge-patch (purge) + JSON-patch (finalizer), two
+    requests. (NOT modelled: the echo of the merge half is processed as a cycle of its own, blind and still blocked,
+    whose finalizer JSON-patch is rejected with HTTP 422 — one wasted request, C06/C08's subject.) -/
+def remState (env : Env) (s : State E) (g : Bool) : State E :=
+  { s with P := (if !env.prematch && leftovers env s then purged env s else s.P),
+           blocked := false, gone := g,
+           now := s.now + (if !env.prematch && leftovers env s then env.rtt + env.lat else latS env),
+           pending := !g,
+           writes := s.writes + (if !env.prematch && leftovers env s then 2 else cp env + 1) }
+
 /-- One turn of the closed loop: consume the pending event, process it, `apply`. -/
 def loopStep (env : Env) (s : State E) : State E :=
   if !s.pending then s                                  -- quiescent: nothing arrives, nothing happens
@@ -180,10 +217,10 @@ def loopStep (env : Env) (s : State E) : State E :=
       { s with blocked := true, now := s.now + latS env, pending := true, writes := s.writes + cp env + 1 }
     else if d.removeUnneeded then
       -- "Removing the finalizer, as there are no handlers requiring it": no handlers this turn
-      let g := s.marked && !env.foreignFins
-      { s with blocked := false, gone := g, now := s.now + latS env, pending := !g, writes := s.writes + cp env + 1 }
-    else if !d.handlersRun then { s with pending := false, writes := s.writes + cp env }   -- "be blind to it, store no state"
+      remState env s (s.marked && !env.foreignFins)
+    else if !d.handlersRun then purgeTurn env s          -- "be blind to it, store no state": leftovers included
     else if d.release then releaseTurn env s
+    else if (causeOf s).reason = .free then purgeTurn env s   -- "Deletion, but we are done with it": leftovers purged
     else handleTurn env s
 
 /-- `n` turns of the loop -/
@@ -320,9 +357,10 @@ def adjusting (env : Env) (s : State E) : Bool :=
 /-- turns still needed by the handling proper:
     2·(selected handlers still unfinished) + (1 if none of them is due now) + (1 if superseded records
     are still to be re-purposed) + 1 (the echo of the closing PATCH) + the keepalive rounds of delays
-    longer than the cap; for an informational cause 1, or 2 if leftover records are purged first. -/
+    longer than the cap; for an informational cause, a blind or a FREE object 1, or 2 if leftover records are
+    purged first. -/
 def core (env : Env) (s : State E) : Nat :=
-  if !env.prematch then 1
+  if !env.prematch || decide ((causeOf s).reason = .free) then (if leftovers env s then 2 else 1)
   else if !isHandler s then (if changedOf env s then 2 else 1)
   else 2 * Uv (selOf env s) s.P + Av (selOf env s) s.P s.now
        + (if extrasOf env s then 1 else 0) + 1
@@ -366,18 +404,26 @@ inductive Carried where
 /-- One turn of the loop that starts with a carried patch. `patch_initially_empty` is false, so — unless the turn is
     dedicated to the finalizer, or the framework is blind to the object — `process_resource_causes` skips the
     state-dependent handlers ("exit to PATCHing": the re-sent patch is expected to bring the next event): no pass, no
-    release. `application.apply` then sends the functions' JSON-patch (`ops`: one request that changes the object, its
-    echo is the next event) or has nothing to send (`noop`: since repo fix b7bf39c "no request" is not taken for a
-    change, but there are no delays either — the handlers did not run — so no sleep, no touch: NO EVENT FOLLOWS).
-    The carried patch is cleared either way. -/
+    release — and (repo fix 02af7ce, the rework of 608a57d) returns a ZERO delay for the sake of the carried patch. `application.apply`
+    then sends the functions' JSON-patch (`ops`: one request that changes the object, its echo is the next event, the
+    zero delay is not slept) or has nothing to send (`noop`: the functions are re-evaluated on the freshest state and are
+    fulfilled already): the zero delay is "slept" and the object is TOUCHED — the touch's echo is the next event, an
+    ordinary turn in which the handlers run. The carried patch is cleared either way; records and last-handled state
+    are as they were. -/
 def loopStepC (env : Env) (c : Carried) (s : State E) : State E :=
   if c = .none || !s.pending || s.gone || adjusting env s || !env.prematch then loopStep env s
   else if c = .ops then
     { s with now := s.now + (if env.constPatch then env.rtt else 0) + env.lat, pending := true,
              writes := s.writes + cp env + 1 }
-  else { s with pending := false, writes := s.writes + cp env }
+  else { s with now := s.now + latS env, pending := true, writes := s.writes + cp env + 1 }
 
 /-! ### C07's consistency wait, as far as this loop is concerned -/
+
+/-- the part of the consistency wait that `apply` sleeps before it touches the object: `max(0, deadline − now)`,
+    capped by the keepalive interval like every delay -/
+def waitOf (env : Env) (dl : Tick) (s : State E) : Tick :=
+  let d := if s.now < dl then dl - s.now else 0
+  if d > env.cap then env.cap else d
 
 /-- One turn on an event that is NOT the echo the worker awaits: it still awaits the version of the framework's own
     last PATCH, the consistency deadline `dl` lies ahead. Whether the barrier is up is C07's subject and not modelled
@@ -385,11 +431,51 @@ def loopStepC (env : Env) (c : Carried) (s : State E) : State E :=
     finalizer, or on an object the framework is blind to, requires no consistency. Otherwise, with no patch
     accumulated before the state-dependent part (`nonEmpty = false`) the processor sleeps till the deadline, assumes
     the consistency and goes on: `loopStep` at the deadline. With a patch accumulated (`nonEmpty = true`: an on.event
-    handler's result or its transformation functions) it neither sleeps nor runs the handlers ("exit to PATCHing": the
-    patch is expected to bring the next event) — but in this loop the patches of that kind change nothing
-    (`constPatch`: one request without effect; functions without operations: no request): NO EVENT FOLLOWS, and the
-    worker exits at the deadline. -/
+    handler's result or its transformation functions) it neither sleeps nor runs the handlers ("exit to PATCHing") —
+    but since repo fix 30557a0 it returns the remaining waiting time as a delay: in this loop the patches of that kind
+    change nothing (`constPatch`: one request without effect; functions without operations: no request), so `apply`
+    sleeps that time, touches the object, and the touch's echo — the version the worker then awaits — is the next
+    event: an ordinary turn after the deadline. Records and last-handled state are as they were. -/
 def loopStepI (env : Env) (nonEmpty : Bool) (dl : Tick) (s : State E) : State E :=
+  if !s.pending || s.gone || adjusting env s || !env.prematch then loopStep env s
+  else if nonEmpty then
+    { s with now := s.now + waitOf env dl s + latS env, pending := true, writes := s.writes + cp env + 1 }
+  else loopStep env { s with now := if s.now < dl then dl else s.now }
+
+/-! ### the turns as they were BEFORE the repairs 423b86f, 40d09eb, 608a57d + 02af7ce, 30557a0 (for the regression theorems) -/
+
+/-- `loopStep` before 423b86f / 40d09eb: a blind object is left alone (whatever records it carries), and so is a FREE
+    one (C02's `cycle` purges for the reason "noop" only). -/
+def loopStepOld (env : Env) (s : State E) : State E :=
+  if !s.pending then s
+  else if s.gone then { s with pending := false }
+  else
+    let d := decisionOf env s
+    if d.add then
+      { s with blocked := true, now := s.now + latS env, pending := true, writes := s.writes + cp env + 1 }
+    else if d.removeUnneeded then
+      let g := s.marked && !env.foreignFins
+      { s with blocked := false, gone := g, now := s.now + latS env, pending := !g, writes := s.writes + cp env + 1 }
+    else if !d.handlersRun then { s with pending := false, writes := s.writes + cp env }
+    else if d.release then releaseTurn env s
+    else handleTurn env s
+
+def iterOld (env : Env) : Nat → State E → State E
+  | 0, s => s
+  | n + 1, s => iterOld env n (loopStepOld env s)
+
+/-- `loopStepC` before 608a57d / 02af7ce: a carried no-op makes the cycle skip the handlers and send nothing; there
+    are no delays either (the handlers did not run): NO EVENT FOLLOWS. -/
+def loopStepCOld (env : Env) (c : Carried) (s : State E) : State E :=
+  if c = .none || !s.pending || s.gone || adjusting env s || !env.prematch then loopStep env s
+  else if c = .ops then
+    { s with now := s.now + (if env.constPatch then env.rtt else 0) + env.lat, pending := true,
+             writes := s.writes + cp env + 1 }
+  else { s with pending := false, writes := s.writes + cp env }
+
+/-- `loopStepI` before 30557a0: with a patch accumulated the wait AND the handlers are skipped, the patch changes
+    nothing: NO EVENT FOLLOWS, and the worker exits at the deadline. -/
+def loopStepIOld (env : Env) (nonEmpty : Bool) (dl : Tick) (s : State E) : State E :=
   if !s.pending || s.gone || adjusting env s || !env.prematch then loopStep env s
   else if nonEmpty then { s with pending := false, writes := s.writes + cp env }
   else loopStep env { s with now := if s.now < dl then dl else s.now }
